@@ -107,4 +107,14 @@ CHECKS = {
            "dimensions beyond the combined abstract model."),
   "design_ref": "DESIGN.md §5 C05", "note": _NOTE,
   "technique": "static analysis: writer/reader agreement (CODEC) by evaluating both transformation ASTs over finite abstractions of every carried dimension; virtual file system; json library applied to the evaluated document"},
+ "C08": {
+  "text": ("CODEC closure for Glencoe JSON by composing GlencoeWriter.transform and GlencoeReader.transform from "
+           "source: per class of every dimension of the fragment (single mandatory/optional children; one alternative/"
+           "or/mutex/[a,b] group over the well-formed cardinality domain, alone and with mandatory singles; name shapes "
+           "= join keys between features / tree ids / FeatureTerm operands; eight logical operators at every position; "
+           "constraint names; n-ary terms) the model read back equals the one written (relations as multisets, "
+           "constraints up to REQUIRES=IMPLIES); cycles are fixpoints; returned = written (UTF-8); output well-formed. "
+           "Not decided: documents not produced by the writer (C09)."),
+  "design_ref": "DESIGN.md §5 C08", "note": _NOTE,
+  "technique": "static analysis: writer/reader agreement (CODEC) by evaluating both transformation ASTs over finite abstractions of every carried dimension (join-key agreement, kind closure over the cardinality domain, operator vocabulary)"},
 }
